@@ -1,47 +1,51 @@
 (** C01  Round trip: decoding an encoding returns the original value.
-    Property theorems only; proofs live in RoundTrip.v. *)
+    Property theorems only; proofs live in RoundTrip.v / RoundTripKeyed.v. *)
 From Coq Require Import String.
 From Coq Require Import List NArith.
-From Borsh Require Import Bytes Result Ty Ser De Entry RoundTrip.
+From Borsh Require Import Bytes Result Ty Ser De Entry RoundTrip RoundTripKeyed.
 Import ListNotations.
 Local Open Scope N_scope.
 
-(** FULL STATEMENT (target): the same without the [plain t] hypothesis, i.e. including
-    BTreeSet/BTreeMap/HashSet/HashMap/IndexSet/IndexMap at any depth.
-    PROVED SO FAR: every type of the family in which no ordered/hashed/indexed collection
-    occurs ([plain]).  For every such type, every value of it, under both settings of
-    de_strict_order, and any bytes following the encoding: decoding returns the logical
-    value (skipped fields as their default, deque joined, wrappers transparent) and leaves
-    exactly the trailing bytes. *)
-Theorem C01_round_trip_partial :
+(** For every type of the family ([wf]: tuple arities, distinct one-byte tags, key types
+    with [Ord], defaults for skipped fields, no borrowed slice of zero-sized elements),
+    every value of it ([has_ty]), both settings of de_strict_order ([c]) and any bytes
+    following the encoding: if the value serializes, decoding returns the logical value
+    (skipped fields as their default, hash collections as their sorted content, deque
+    joined, wrappers transparent) and leaves exactly the trailing bytes. *)
+Theorem C01_round_trip :
   forall (c : cfg) (t : ty) (v : val) (bs : bytes),
-    wf t = true -> plain t = true -> has_ty t v = true -> enc t v = Ok bs ->
+    wf t = true -> has_ty t v = true -> enc t v = Ok bs ->
     forall rest, dec_slice c t (bs ++ rest) = Ok (logical t v, rest).
-Proof. exact round_trip_plain. Qed.
-Print Assumptions C01_round_trip_partial.
+Proof. exact round_trip. Qed.
+Print Assumptions C01_round_trip.
 
-(** whole-input entry points *)
-Theorem C01_from_slice_partial :
+(** the whole-input entry points (to_vec / from_slice, try_from_slice) *)
+Theorem C01_from_slice :
   forall (c : cfg) (t : ty) (v : val) (bs : bytes),
-    wf t = true -> plain t = true -> has_ty t v = true -> to_vec t v = Ok bs ->
+    wf t = true -> has_ty t v = true -> to_vec t v = Ok bs ->
     from_slice c t bs = Ok (logical t v).
-Proof. exact from_slice_plain. Qed.
-Print Assumptions C01_from_slice_partial.
+Proof. exact from_slice_round_trip. Qed.
+Print Assumptions C01_from_slice.
 
-(** Non-vacuity: a nested value meets the hypotheses, and the conclusion computes. *)
+(** Non-vacuity: a nested value with a skipped field, a deque split in two, a hash map
+    listed out of order and a B-tree set meets the hypotheses, and the conclusion computes. *)
 Local Open Scope string_scope.
 Definition ex_t : ty :=
-  TProd (PStruct "S" ["a"; "b"; "c"] [false; true; false])
+  TProd (PStruct "S" ["a"; "b"; "c"; "d"] [false; true; false; false])
     [TSeq SVec (TSum KOption [TProd (PVariant [] []) []; TProd PTuple [TPrim (PInt false W1); TPrim (PFloat false)]]);
      TPrim (PInt true W4);
-     TSeq SDeque (TText XString)].
+     TSeq SDeque (TText XString);
+     TSeq SHashMap (TProd PTuple [TPrim (PInt true W1); TSeq SBTreeSet (TPrim (PInt false W2))])].
 Definition ex_v : val :=
-  VL [VL [VV 1 (VL [VN 7; VN 1065353216]); VV 0 (VL [])]; VN 99; VL [VL [VL [VN 104; VN 105]]; VL [VL []]]].
+  VL [VL [VV 1 (VL [VN 7; VN 1065353216]); VV 0 (VL [])]; VN 99; VL [VL [VL [VN 104; VN 105]]; VL [VL []]];
+      VL [VL [VN 3; VL [VN 1; VN 2]]; VL [VN 255; VL []]]].
 Example C01_nonvacuous :
-  wf ex_t = true /\ plain ex_t = true /\ has_ty ex_t ex_v = true /\
-  exists bs, enc ex_t ex_v = Ok bs /\ len bs = 25 /\
-             dec_slice {| strict := true |} ex_t bs = Ok (logical ex_t ex_v, []).
+  wf ex_t = true /\ has_ty ex_t ex_v = true /\
+  exists bs, enc ex_t ex_v = Ok bs /\ len bs = 43 /\
+             dec_slice {| strict := true |} ex_t bs = Ok (logical ex_t ex_v, []) /\
+             logical ex_t ex_v <> ex_v.
 Proof.
-  split; [reflexivity|]. split; [reflexivity|]. split; [reflexivity|].
-  eexists. split; [vm_compute; reflexivity|]. split; vm_compute; reflexivity.
+  split; [reflexivity|]. split; [reflexivity|].
+  eexists. split; [vm_compute; reflexivity|]. split; [vm_compute; reflexivity|].
+  split; [vm_compute; reflexivity|]. vm_compute. discriminate.
 Qed.
